@@ -48,6 +48,11 @@ def cases(tier, salts):
                                 for npt in npts:
                                     out.append({"m": m, "n": n, "cond": cond, "idx": idx, "pat": list(pat), "x0": x0k,
                                                 "scaling": sc, "npt": npt, "salt": salt})
+                                    # boxes whose sides differ by orders of magnitude (what internal scaling is for): the
+                                    # narrow sides are far below 2*rhobeg in user units, which is legal only with scaling
+                                    if sc and n >= 2 and cond == conds[0] and npt == npts[0]:
+                                        out.append({"m": m, "n": n, "cond": cond, "idx": idx, "pat": list(pat), "x0": x0k,
+                                                    "scaling": True, "npt": npt, "salt": salt, "wmag": 1})
     return out
 
 
@@ -57,16 +62,22 @@ def build(case):
     xhat = np.linalg.lstsq(A, b, rcond=None)[0]
     lo = np.full(n, -1e20)
     hi = np.full(n, 1e20)
+    mag = [0.04, 1.0, 25.0, 0.3][:n] if case.get("wmag") else [1.0] * n
+    if case.get("wmag"):
+        # rescale the columns so that the problem is as well conditioned in the scaled variables as the plain case
+        A = A / np.array(mag)
+        xhat = np.linalg.lstsq(A, b, rcond=None)[0]
     for j, p in enumerate(case["pat"]):
         p = PATTERNS[p]
+        w = mag[j]
         if p == "inactive":
-            lo[j], hi[j] = xhat[j] - 1.0, xhat[j] + 1.5
+            lo[j], hi[j] = xhat[j] - 1.0 * w, xhat[j] + 1.5 * w
         elif p == "act_lo":
-            lo[j], hi[j] = xhat[j] + 0.3, xhat[j] + 2.0
+            lo[j], hi[j] = xhat[j] + 0.3 * w, xhat[j] + 2.0 * w
         elif p == "act_hi":
-            lo[j], hi[j] = xhat[j] - 2.0, xhat[j] - 0.3
+            lo[j], hi[j] = xhat[j] - 2.0 * w, xhat[j] - 0.3 * w
         elif p == "at_min":
-            lo[j], hi[j] = xhat[j], xhat[j] + 1.7
+            lo[j], hi[j] = xhat[j], xhat[j] + 1.7 * w
     x0 = np.zeros(n)
     for j in range(n):
         fin = lo[j] > -1e19
@@ -75,7 +86,7 @@ def build(case):
         elif case["x0"] == "corner":
             x0[j] = lo[j] if fin else xhat[j] - 0.5
         else:
-            x0[j] = lo[j] - 0.5 if fin else xhat[j] + 0.7
+            x0[j] = lo[j] - 0.5 * mag[j] if fin else xhat[j] + 0.7
     return A, b, lo, hi, x0
 
 
@@ -126,6 +137,8 @@ def check_case(case):
     if nact:
         tags.append("active_at_optimum")
     tags.append("msg:" + str(s.msg).split(":")[-1].strip()[:30])
+    if case.get("wmag"):
+        tags.append("sides_of_different_magnitude")
     return v, tags
 
 
